@@ -1225,6 +1225,45 @@ example : ((vectorizeM (sumM 0) 2).compute ((vectorizeM (sumM 0) 2).fillAll (vec
     = .ok [⟨[some ⟨4, none⟩, some ⟨7, none⟩], some [("a", some 1)]⟩] := by rfl
 
 
+/-! ### Vectorize around `FillComputeSeq(lambda x: f(x), el)` components -/
+
+theorem mapData_fillAll (f : Int → Int) (m : Machine σ (Item Int) ο) (s : σ) (vs : List (Item Int)) :
+    (mapDataM f m).fillAll s vs = m.fillAll s (vs.map (fun v => ⟨f v.data, v.ctx⟩)) := by
+  induction vs generalizing s with
+  | nil => rfl
+  | cons v vs ih => rw [fillAll_cons, ih]; rfl
+
+/-- `Vectorize(FillComputeSeq(f, Sum()), dim)` after `reset()`: every component's `Sum` (found through
+`_fill_compute`) is reset, so every later history shows what it shows on a new element -/
+theorem vec_seq_sum_reset_fresh (f : Int → Int) (dim : Nat) (h1 h2 : List (Op (Item (List Int)))) :
+    ((vectorizeM (mapDataM f (sumM 0)) dim).run ((vectorizeM (mapDataM f (sumM 0)) dim).run
+      (vectorizeM (mapDataM f (sumM 0)) dim).init (h1 ++ [Op.reset])).1 h2).2
+      = (vectorizeM (mapDataM f (sumM 0)) dim).observe h2 :=
+  vec_reset_fresh (mapDataM f (sumM 0)) (fun _ => True) trivial (fun _ _ _ => trivial) (fun _ _ => trivial)
+    (fun _ _ => rfl) dim h1 h2
+
+/-- `Vectorize(FillComputeSeq(f, Sum()), dim)` yields the component sums of the preprocessed values -/
+theorem vec_seq_sum_compute_spec (f : Int → Int) (dim : Nat) (vs : List (Item (List Int)))
+    (hlen : ∀ v ∈ vs, max dim 1 ≤ v.data.length) :
+    ((vectorizeM (mapDataM f (sumM 0)) dim).compute
+        ((vectorizeM (mapDataM f (sumM 0)) dim).fillAll (vectorizeM (mapDataM f (sumM 0)) dim).init vs)).2 =
+      match firstErr ((List.range (max dim 1)).map (fun i =>
+          ((sumM 0).compute ((sumM 0).fillAll (sumM 0).init
+            ((column i vs).map (fun v => ⟨f v.data, v.ctx⟩)))).2)) with
+      | .error e => .error e
+      | .ok yss => .ok ((zipLongest yss).map (fun row => withCtx row (ctxAfter [] vs))) := by
+  rw [vec_compute_spec (mapDataM f (sumM 0)) (fun _ _ => rfl) dim vs hlen]
+  simp only [mapData_fillAll]
+  simp only [mapDataM]
+  generalize firstErr ((List.range (max dim 1)).map (fun i =>
+          ((sumM 0).compute ((sumM 0).fillAll (sumM 0).init
+            ((column i vs).map (fun v => (⟨f v.data, v.ctx⟩ : Item Int))))).2)) = r
+  cases r <;> rfl
+
+example : ((vectorizeM (mapDataM (· * 2) (sumM 0)) 2).observe
+    [.fill ⟨[1, 2], none⟩, .reset, .fill ⟨[3, 5], none⟩, .compute])
+    = [.filled none, .wasReset, .filled none, .computed (.ok [⟨[some ⟨6, none⟩, some ⟨10, none⟩], none⟩])] := by rfl
+
 end Vectorize
 
 /-! ### Graph -/
